@@ -12,6 +12,18 @@ CHECKS = {
  'C09': ('proof', 'PyVC: per-row linear-integer VCs over the live table + symbolic execution of the real encode/decode/validate ASTs over ghost base58 numbers, z3',
          'for every row and ALL payloads the encoded string has the documented prefix and length; table unambiguity; base58_encode/base58_decode/_validate/is_* decided on the real code with the base58 package replaced by its contract; payload lengths are fixed per row so per-row symbolic execution is complete',
          'assumed: base58.b58encode_check/b58decode_check implement specs/b58.py (exercised at run time every run); sha256 checksum uninterpreted; PyVC encoding; z3', '5/C09'),
+ 'C10': ('other', 'PyVC: symbolic execution of the real forge/unforge ASTs with all payload bytes symbolic, base58 by the C09 contracts (ghost strings), z3 (P); run-time contracts on the domain types (R, bounded)',
+         'address (22-byte and 21-byte key-hash forms), contract+entrypoint (every name, symbolic bytes, length 1..31), public key, signature and chain-id round trips and exact layouts proved for ALL payload bytes; typed-value layer checked at run time on boundary/random strings',
+         'assumed: C09 contracts of base58_encode/base58_decode/b58decode_check; str.encode/decode inverse; PyVC encoding; z3', '5/C10'),
+ 'C18': ('exploration', 'run-time contract (format∘parse identity) over exhaustive bounded enumeration of well-sorted Micheline',
+         'every primitive of the live table in every admissible argument slot, all expressions up to 5 (7) nodes over a reduced alphabet, literal/escape/annotation boundary classes, inline and multi-line layouts incl. narrow widths; the PLY-generated parser and json.dumps are external, no deductive part',
+         'bounded; external: ply tables, json.dumps; grammar of sorts/arity in specs/C18_michelson_grammar.py', '5/C18'),
+ 'C30': ('exploration', 'run-time contract (apply∘make_patch, revert) over exhaustive bounded enumeration of text pairs',
+         'all pairs of texts up to 4 (6) lines over a 3-line alphabet, with/without trailing newline, empty texts, context sizes 0..3; Protocol.diff/patch on small offline Protocol objects; difflib is external, no deductive part',
+         'bounded; external: difflib.unified_diff', '5/C30'),
+ 'C33': ('exploration', 'run-time contract against an independent spec_expand over bounded enumeration of scripts and reference graphs',
+         'scripts up to size 5 with references in type/code/data position, acyclic constant graphs to depth 3, unknown hashes; hash recomputed independently (Micheline encoder + blake2b + base58 expr)',
+         'bounded; shell RPC stubbed by monkeypatch; specs/global_constants.py checked against 7 recorded hashes', '5/C33'),
  'C28': ('exploration', 'run-time contract with ghost request counter over all outcome sequences (bounded)',
          'all success/error outcome sequences up to length 6 (8 thorough) for 1..4 nodes on the real RpcMultiNode with stubbed inner nodes',
          'inner RpcNode.request stubbed; bounded history length', '5/C28'),
